@@ -220,6 +220,7 @@ def finish(pid, tier, seed, meta, parts, wall, replayers=None, crashed=None):
         label=f"{b['name']} :: {f.get('case', '')}", status="refuted", backend=b["kind"], model=f,
         detail=f.get("detail", ""))) for b, f in bfail]
     native_cache = {}
+    per_standin = {}
     for label, o in viol_items:
         k = is_known(label)
         if k:
@@ -228,6 +229,11 @@ def finish(pid, tier, seed, meta, parts, wall, replayers=None, crashed=None):
                 lines.append(f"KNOWN-FINDING: property={pid} {k['what']} [obligation: {k['obligation']}]")
             continue
         violations += 1
+        if o.get("backend", "").startswith("B-"):
+            base = label.split(" :: ")[0]
+            per_standin[base] = per_standin.get(base, 0) + 1
+            if per_standin[base] > 3:
+                continue        # further failing cases of the same stand-in are listed in the evidence only
         rp = dict(property=pid, obligation=label, status="refuted", backend=o.get("backend"),
                   verifier_output=dict(model=o.get("model"), detail=o.get("detail")), replay=None)
         suffix = " no-failing-input-found"
@@ -254,7 +260,7 @@ def finish(pid, tier, seed, meta, parts, wall, replayers=None, crashed=None):
                     suffix = ""
             except Exception:  # noqa: BLE001
                 rp["replay"] = dict(reproduced=False, error=traceback.format_exc())
-        slug = re.sub(r"[^A-Za-z0-9]+", "-", label)[:80].strip("-")
+        slug = re.sub(r"[^A-Za-z0-9]+", "-", label)[:80].strip("-") + "-" + hashlib.sha1(label.encode()).hexdigest()[:6]
         path = os.path.join(rpdir, f"{pid}-{slug}.json")
         with open(path, "w") as fh:
             json.dump(rp, fh, indent=1, default=str)
